@@ -137,6 +137,13 @@ fn check_proof_generic<S: Lin>(
     lambda: usize,
     ctx: &mut CaseCtx,
 ) -> Result<(), Failure> {
+    // the relative distance the soundness bound is evaluated with: derived from the parameter fields by
+    // the harness; the library's own `distance()` must be that number
+    let dist = S::ref_distance(&keys.ck).map_err(|e| Failure { sig: sig(P, S::NAME, "params", "mirror"), msg: e })?;
+    let lib_d = S::distance(&keys.ck);
+    ctx.check(lib_d.0 as u128 * dist.1 as u128 == dist.0 as u128 * lib_d.1 as u128, sig(P, S::NAME, "params", "wrong_relative_distance"), || {
+        format!("distance() reports {}/{} but the code's relative distance is {}/{}", lib_d.0, lib_d.1, dist.0, dist.1)
+    })?;
     let lp = LabeledPolynomial::new("p".into(), poly.clone(), None, None);
     let mut r = rng(1);
     let (cm, st) = match guard(|| S::PC::commit(&keys.ck, [&lp], Some(&mut r))) {
@@ -144,15 +151,15 @@ fn check_proof_generic<S: Lin>(
         Out::Err(e) | Out::Abort(e) => {
             // unusable parameter combinations must be refused; usable ones must be served
             let n_guess = lincode::poly_vec::<S>(&poly).len().max(1);
-            let usable = lincode::expected_t::<Fr>(lambda, S::distance(&keys.ck), n_guess).is_some();
+            let usable = lincode::expected_t::<Fr>(lambda, dist, n_guess).is_some();
             ctx.label("commit_refused");
             return ctx.check(!usable, sig(P, S::NAME, "commit", "usable_parameters_refused"), || format!("lambda {lambda}: {e}"));
         }
     };
     let mc = lincode::comm_mirror::<S>(&cm[0]).map_err(|e| Failure { sig: sig(P, S::NAME, "commit", "mirror"), msg: e })?;
     let n_ext = mc.metadata.n_ext_cols;
-    let want = lincode::expected_t::<Fr>(lambda, S::distance(&keys.ck), n_ext);
-    let approx = lincode::approx_t::<Fr>(lambda, S::distance(&keys.ck), n_ext);
+    let want = lincode::expected_t::<Fr>(lambda, dist, n_ext);
+    let approx = lincode::approx_t::<Fr>(lambda, dist, n_ext);
     let mut sp = sponge::<Fr>(pre);
     let mut r2 = rng(2);
     let proof = guard(|| S::PC::open(&keys.ck, [&lp], &cm, &point, &mut sp, &st, Some(&mut r2)));
@@ -173,10 +180,10 @@ fn check_proof_generic<S: Lin>(
     ctx.label_if(t < n_ext, "uncapped_t");
     ctx.label_if(t == n_ext, "capped_t");
     ctx.nontrivial_if(t < n_ext);
-    ctx.derived = Some(json!({"scheme": S::NAME, "lambda": lambda, "distance": S::distance(&keys.ck), "n_rows": mc.metadata.n_rows, "n_cols": mc.metadata.n_cols, "n_ext_cols": n_ext, "t_expected": t, "columns": mp[0].opening.columns.len()}));
+    ctx.derived = Some(json!({"scheme": S::NAME, "lambda": lambda, "distance": dist, "n_rows": mc.metadata.n_rows, "n_cols": mc.metadata.n_cols, "n_ext_cols": n_ext, "t_expected": t, "columns": mp[0].opening.columns.len()}));
     let class = if approx != want { "field_size_approximation" } else { "wrong_number_of_columns" };
     ctx.check(mp.len() == 1 && mp[0].opening.columns.len() == t && mp[0].opening.paths.len() == t, sig(P, S::NAME, "open", class), || {
-        format!("lambda {lambda}, distance {:?}, n_ext {n_ext}: proof opens {} columns / {} paths, the bound needs exactly t = {t}", S::distance(&keys.ck), mp[0].opening.columns.len(), mp[0].opening.paths.len())
+        format!("lambda {lambda}, distance {:?}, n_ext {n_ext}: proof opens {} columns / {} paths, the bound needs exactly t = {t}", dist, mp[0].opening.columns.len(), mp[0].opening.paths.len())
     })?;
     // positions: inside the codeword, equal to the harness's own transcript-derived indices, authenticated
     ctx.check(mp[0].opening.paths.iter().all(|p| p.leaf_index < n_ext), sig(P, S::NAME, "open", "position_outside_codeword"), || "a leaf index is outside the codeword".into())?;
